@@ -220,7 +220,8 @@ fn oracle(c: &CurveCase, cv: &Curve, ps: &[f64], pos: &[Pos], dists: &[f64], nvf
     }
     // Lipschitz: the position never moves farther than the arc length between two progress values
     let mut order: Vec<usize> = (0..ps.len()).collect();
-    order.sort_by(|a, b| dists[*a].partial_cmp(&dists[*b]).unwrap());
+    order.retain(|i| !dists[*i].is_nan());
+    order.sort_by(|a, b| dists[*a].total_cmp(&dists[*b]));
     for w in order.windows(2) {
         out.oracle_checks += 1;
         let (a, b) = (w[0], w[1]);
